@@ -146,47 +146,92 @@ const V5Q: u8 = 0x2B;
 const V5R: u8 = 0x6C;
 const T_OTHER: u16 = 0x1234;
 
-// ------------------------------------------------------------------ unstructured
+// ------------------------------------------------------------------ headers
+/// NTPv3 / NTPv4 header alone: every mode, every leap value, the other 47 bytes symbolic:
+/// identity. (First header byte concrete per image: with a symbolic version the decoder is
+/// explored for all three versions at once, including the NTPv5 field parser on symbolic lengths,
+/// which is C23's unstructured harness and does not add accepted packets below 76 bytes.)
+fn header_family(version: u8) {
+    macro_rules! one { ($leap:expr, $mode:expr) => {{
+        let mut buf: [u8; 52] = kani::any();
+        buf[0] = ($leap << 6) | (version << 3) | $mode;
+        let mut nf = [0u8; 52 + SLACK];
+        nf[..52].copy_from_slice(&buf);
+        let acc = round_trip(&buf[..48], &nf, 48, FULL);
+        assert!(acc, "a 48-byte v3/v4 header is a packet");
+    }} }
+    one!(0, 0);
+    one!(1, 1);
+    one!(2, 2);
+    one!(3, 3);
+    one!(0, 4);
+    one!(1, 5);
+    one!(2, 6);
+    one!(3, 7);
+}
+/// quick-tier representative: v3 client header, v4 server header with leap 3
 pharness! {
     #[kani::unwind(8)]
-    fn c24_rt_u() {
-        let buf: [u8; 56] = kani::any();
-        let len: usize = kani::any();
-        kani::assume(len <= 52);
-        // within 52 bytes only v3/v4 header (+ MAC of 4 bytes) can be accepted: identity
-        let mut nf = [0u8; 56 + SLACK];
-        nf[..56].copy_from_slice(&buf);
-        let acc = round_trip(&buf[..len], &nf, len, FULL);
-        let version = (buf[0] >> 3) & 7;
-        kani::cover!(acc && len == 48 && version == 3, "v3 header round trip");
-        kani::cover!(acc && len == 52 && version == 4, "v4 header + 4-byte MAC round trip");
-        kani::cover!(acc && len == 52 && version == 3, "v3 header + 4-byte MAC round trip");
-        kani::cover!(!acc && len == 50, "rejected input");
+    fn c24_rt_hdr_q() {
+        let mut a: [u8; 52] = kani::any();
+        a[0] = V3C;
+        let mut nf = [0u8; 52 + SLACK];
+        nf[..52].copy_from_slice(&a);
+        assert!(round_trip(&a[..48], &nf, 48, FULL), "a 48-byte v3 header is a packet");
+        let mut b: [u8; 52] = kani::any();
+        b[0] = V4S;
+        let mut nf = [0u8; 52 + SLACK];
+        nf[..52].copy_from_slice(&b);
+        assert!(round_trip(&b[..48], &nf, 48, FULL), "a 48-byte v4 header is a packet");
+        kani::cover!(true, "reached");
+    }
+}
+pharness! {
+    #[kani::unwind(8)]
+    fn c24_rt_hdr_v3() {
+        header_family(3);
+        kani::cover!(true, "reached");
+    }
+}
+pharness! {
+    #[kani::unwind(8)]
+    fn c24_rt_hdr_v4() {
+        header_family(4);
+        kani::cover!(true, "reached");
     }
 }
 
 // ------------------------------------------------------------------ templates
 /// NTPv3/NTPv4 header followed by a MAC of every length (symbolic 0..=28 bytes after the header;
 /// 1..=3 and > 24 are refused): identity.
+fn mac_family(b0: u8, max_len: usize) {
+    let mut buf: [u8; 80] = kani::any();
+    let len: usize = kani::any();
+    kani::assume(len >= 48 && len <= max_len);
+    buf[0] = b0;
+    let mut nf = [0u8; 80 + SLACK];
+    nf[..80].copy_from_slice(&buf);
+    let acc = round_trip(&buf[..len], &nf, len, FULL);
+    let t = len - 48;
+    assert!(acc == (t == 0 || (t >= 4 && t <= 24)), "header + MAC accepted iff the MAC has 4..=24 bytes");
+    kani::cover!(acc && t == 24, "24-byte MAC");
+    kani::cover!(acc && t == 20, "20-byte MAC");
+    kani::cover!(acc && t == 5, "odd MAC length");
+    kani::cover!(!acc && t == 3, "too short");
+}
 pharness! {
     #[kani::unwind(8)]
-    fn c24_rt_mac() {
-        let mut buf: [u8; 80] = kani::any();
-        let len: usize = kani::any();
-        let v4: bool = kani::any();
-        kani::assume(len >= 48 && len <= 76);
-        buf[0] = if v4 { V4S } else { V3C };
-        // a v4 packet with more than 24 trailing bytes starts an extension field: other template
-        kani::assume(!v4 || len <= 72);
-        let mut nf = [0u8; 80 + SLACK];
-        nf[..80].copy_from_slice(&buf);
-        let acc = round_trip(&buf[..len], &nf, len, FULL);
-        let t = len - 48;
-        assert!(acc == (t == 0 || (t >= 4 && t <= 24)), "header + MAC accepted iff the MAC has 4..=24 bytes");
-        kani::cover!(acc && t == 24 && v4, "v4 + 24-byte MAC");
-        kani::cover!(acc && t == 20 && !v4, "v3 + 20-byte MAC");
-        kani::cover!(acc && t == 5, "odd MAC length");
-        kani::cover!(!acc && t == 25, "too long");
+    fn c24_rt_mac_v3() {
+        mac_family(V3C, 76);
+        kani::cover!(true, "reached");
+    }
+}
+pharness! {
+    #[kani::unwind(8)]
+    fn c24_rt_mac_v4() {
+        // a v4 packet with more than 24 trailing bytes starts an extension field: other templates
+        mac_family(V4S, 72);
+        kani::cover!(true, "reached");
     }
 }
 
@@ -201,7 +246,7 @@ fn one<const N: usize, const M: usize, const K: usize>(b0: u8, v5ctl: Option<(u8
 
 /// NTPv4, fields at least as long as the RFC 7822 minimum (16, last field 28): identity.
 pharness! {
-    #[kani::unwind(34)]
+    #[kani::unwind(6)]
     fn c24_rt_v4_one() {
         let a = one::<80, 144, 1>(V4C, None, [fld(T_UID, 28)], 0, FULL);
         let d = one::<104, 168, 1>(V4S, None, [fld(T_COOKIE, 28)], 24, FULL);
@@ -211,7 +256,7 @@ pharness! {
     }
 }
 pharness! {
-    #[kani::unwind(34)]
+    #[kani::unwind(30)]
     fn c24_rt_v4_placeholder() {
         let a = one::<80, 144, 1>(V4C, None, [fld(T_PLACEHOLDER, 28)], 0, FULL);
         kani::cover!(a, "all-zero placeholder round trip");
@@ -219,7 +264,7 @@ pharness! {
     }
 }
 pharness! {
-    #[kani::unwind(34)]
+    #[kani::unwind(6)]
     fn c24_rt_v4_multi() {
         let a = one::<96, 160, 2>(V4C, None, [fld(T_UID, 16), fld(T_COOKIE, 28)], 0, FULL);
         let b = one::<116, 180, 2>(V4S, None, [fld(T_OTHER, 20), fld(T_UID, 28)], 16, FULL);
@@ -231,7 +276,7 @@ pharness! {
 /// NTPv4, fields shorter than the RFC 7822 minimum (last field 28, others 16): accepted, can be
 /// encoded (padded to the minimum), the encoding decodes and is stable.
 pharness! {
-    #[kani::unwind(34)]
+    #[kani::unwind(6)]
     fn c24_rt_v4_short() {
         let e = one::<80, 144, 1>(V4S, None, [fld(T_OTHER, 4)], 24, PADDED);
         let g = one::<80, 144, 1>(V4C, None, [fld(T_COOKIE, 8)], 20, PADDED);
@@ -244,7 +289,7 @@ pharness! {
 /// NTPv5: draft identification before/after one field, odd lengths: normal form = input with
 /// zeroed padding (and zeroed unused tail of a reference id request).
 pharness! {
-    #[kani::unwind(34)]
+    #[kani::unwind(6)]
     fn c24_rt_v5_a() {
         let r4 = one::<100, 164, 2>(V5Q, Some((0, 0)), [DRAFT_F, fld(T_UID, 4)], 0, FULL);
         let r5 = one::<100, 164, 2>(V5Q, Some((1, 1)), [DRAFT_F, fld(T_COOKIE, 5)], 0, FULL);
@@ -255,7 +300,7 @@ pharness! {
     }
 }
 pharness! {
-    #[kani::unwind(34)]
+    #[kani::unwind(12)]
     fn c24_rt_v5_b() {
         let r8 = one::<100, 164, 2>(V5Q, Some((0, 7)), [DRAFT_F, fld(T_REFID_REQ, 8)], 0, FULL);
         let r16 = one::<100, 164, 2>(V5Q, Some((2, 2)), [fld(T_REFID_REQ, 16), DRAFT_F], 0, FULL);
@@ -265,7 +310,7 @@ pharness! {
     }
 }
 pharness! {
-    #[kani::unwind(34)]
+    #[kani::unwind(20)]
     fn c24_rt_v5_placeholder() {
         let a = one::<100, 164, 2>(V5Q, Some((0, 1)), [DRAFT_F, fld(T_PLACEHOLDER, 15)], 0, FULL);
         kani::cover!(a, "all-zero placeholder round trip");
@@ -273,7 +318,7 @@ pharness! {
 }
 /// NTPv5: second draft identification field with arbitrary ASCII content.
 pharness! {
-    #[kani::unwind(34)]
+    #[kani::unwind(6)]
     fn c24_rt_v5_draft() {
         let e = one::<92, 156, 2>(V5Q, Some((0, 1)), [DRAFT_F, fld(T_DRAFT, 10)], 0, FULL);
         kani::cover!(e, "second draft field");
@@ -283,7 +328,7 @@ pharness! {
 /// NTPv5 draft field alone with the whole header symbolic except the version (leap/flags
 /// normalisation, all header error paths).
 pharness! {
-    #[kani::unwind(34)]
+    #[kani::unwind(6)]
     fn c24_rt_v5_header() {
         let mut a: Img<80, 1> = layout(V5Q, None, [DRAFT_F], 0, 0);
         let b0: u8 = kani::any();
@@ -299,7 +344,7 @@ pharness! {
 /// Expected to FAIL on the unchanged tree (candidate finding): NTPv5 reference id request whose
 /// payload is not a multiple of four is accepted by the decoder and makes `serialize` panic.
 pharness! {
-    #[kani::unwind(34)]
+    #[kani::unwind(6)]
     fn c24_rt_v5_kf_refid_req_unaligned() {
         let r = one::<100, 164, 2>(V5Q, Some((0, 1)), [DRAFT_F, fld(T_REFID_REQ, 6)], 0, FULL);
         kani::cover!(r, "accepted");
